@@ -200,6 +200,7 @@ R = {
     "R12": [F("f", ["a"], ["b"]), F("g", ["b"], ["c"]), F("h", ["c", "x"], ["d"])],
     "R13": [F("f", ["a", "b"], ["c"]), F("g", ["a", "b", "c"], ["d"]), F("h", ["c", "d", "x"], ["e"])],
     "R14": [F("f", ["a"], ["b"]), F("g", ["b", "a"], ["c"]), F("h", ["c", "b"], ["d"]), F("k", ["d", "x"], ["e"])],
+    "R15": [F("f", ["a"], ["b"]), F("g", ["b"], ["c"]), F("h", ["c", "a"], ["d"])],
     "R9": [F("f", ["a"], ["b"], bound={"a": 5}), F("g", ["b", "c"], ["d"], defaults={"c": 2}, bound={"c": 8}), F("h", ["d", "a"], ["e"])],
 }
 
